@@ -234,6 +234,18 @@ class _OsProxy(object):
             return CTX.fs.listdir(p)
         return _real_os.listdir(p)
 
+    def stat(self, p, *a, **kw):
+        if simfs.under_root(p):
+            return CTX.fs.stat(p)
+        return _real_os.stat(p, *a, **kw)
+
+    lstat = stat
+
+    def fstat(self, fd):
+        if isinstance(fd, int) and fd >= 100000:
+            return CTX.fs.fstat(fd)
+        return _real_os.fstat(fd)
+
     def remove(self, p):
         if simfs.under_root(p):
             return CTX.fs.os_remove(p)
